@@ -24,17 +24,20 @@ theorem lexV_container (o cl : Char) (to tc : Tok)
   simp
 
 theorem lexV_simple (hc : c.ok = true) {v : J} {s : Simple} (h : v.simple? = some s) (hw : WF v) :
-    LexV c (simpleChunk c s) (toks (norm v)) := by
+    LexV c (simpleChunk c s).text (toks (norm v)) := by
   intro rest hr
   cases v with
   | str x =>
     simp [J.simple?] at h; subst h
     simp only [WF] at hw
     simp [simpleChunk, norm, toks, lex_quoted c x rest hw]
+  | int n =>
+    simp [J.simple?] at h; subst h
+    simp [simpleChunk, norm, toks, lex_int c n rest hr]
   | num t =>
     simp [J.simple?] at h; subst h
     simp only [WF] at hw
-    simp [simpleChunk, norm, toks, lex_num c t rest hw hr]
+    simp [simpleChunk, norm, toks, lex_num c t rest hw.1 hw.2 hr]
   | kw k =>
     simp [J.simple?] at h; subst h
     simp [simpleChunk, norm, toks, lex_kw c hc k rest hr]
@@ -49,7 +52,7 @@ theorem lexV_simple (hc : c.ok = true) {v : J} {s : Simple} (h : v.simple? = som
       simp [simpleChunk, norm, normEntries, sortE, toks, toksEntries]
     | cons _ _ => simp [J.simple?] at h
 
-theorem text_singleton (ch : Chunk) : text [some ch] = ch := by simp
+theorem text_singleton (ch : Chunk) : text [some ch] = ch.text := by simp
 
 theorem lexV_entry {k : List Char} {val : List (Option Chunk)} {ts : List Tok}
     (hk : k.all strOk = true) (hv : LexV c (text val) ts) :
@@ -80,6 +83,9 @@ theorem lex_gen (hc : c.ok = true) (L : Limits) :
   | hs s =>
     intro hw off
     simpa [gen] using lexV_simple c hc (v := .str s) rfl hw
+  | hi n =>
+    intro hw off
+    simpa [gen] using lexV_simple c hc (v := .int n) rfl hw
   | hn t =>
     intro hw off
     simpa [gen] using lexV_simple c hc (v := .num t) rfl hw
@@ -111,7 +117,7 @@ theorem lex_gen (hc : c.ok = true) (L : Limits) :
       | some ss =>
         obtain ⟨hss, hsim⟩ := allSimple?_map hs
         have hitem : ∀ a, a ∈ x :: xs' →
-            LexV c (simpleChunk c (toSimple a)) (toks (norm a)) :=
+            LexV c (simpleChunk c (toSimple a)).text (toks (norm a)) :=
           fun a ha => lexV_simple c hc (hsim a ha) (hw' a ha)
         simp only []
         split
